@@ -162,6 +162,52 @@ def arity_scenarios():
     return out
 
 
+def field_value_scenario():
+    """Own fields come first WHATEVER value the field holds: for every kind of value (nil and false included) and every kind of class
+    member of that name (own method, inherited method, static method, constructor, the built-in `derives`), after `obj.name = value`:
+    reading the member gives the value, a call calls the value (or is the TypeError for calling a non-callable), `type` of it is the
+    value's, another instance of the class still finds the class member, and assigning again replaces it."""
+    values = [("nil", "nil", None), ("false", "false", None), ("0", "0", None), ('""', '""', None), ("[7]", "[7]", None),
+              ("|| \"closure\"", None, "closure"), ("other.tag_of", None, "other"), ("Base", None, None), ("print", None, None)]
+    members = ["own", "inherited", "stat", "new", "derives"]
+    lines = ['#[constructor(new)]', 'class Base { fn inherited(self) { return "Base.inherited"; } }',
+             '#[constructor(new), derive(Base)]', 'class K { fn own(self) { return "K.own"; } #[static] fn stat() { return "K.stat"; } }',
+             '#[constructor(new)]', 'class Other { fn tag_of(self) { return "other"; } }', 'var other = Other.new();', 'fn same(x, y) { return x == y; }']
+    exp = []
+    for vi, (vsrc, shown, called) in enumerate(values):
+        for m in members:
+            lines.append("{ var o = K.new(); var fresh = K.new(); var v = %s; o.%s = v;" % (vsrc, m))
+            lines.append("  print(same(o.%s, v) || type(o.%s) == type(v));" % (m, m))
+            exp.append("true")
+            if vsrc in ("nil", "false"):
+                lines.append("  if o.%s { print(\"truthy\"); } else { print(\"falsy\"); }" % m)
+                exp.append("falsy")
+            if called is not None:
+                lines.append("  print(o.%s());" % m)
+                exp.append(called)
+            elif vsrc == "Base":
+                lines.append("  try { o.%s(); print(\"called a class\"); } catch e { print(type(e) == TypeError); }" % m)
+                exp.append("true")
+            elif vsrc == "print":
+                pass
+            else:
+                lines.append("  try { o.%s(); print(\"called\"); } catch e { print(type(e) == TypeError); }" % m)
+                exp.append("true")
+            # another instance still finds the class member
+            if m in ("own", "inherited"):
+                lines.append("  print(fresh.%s());" % m)
+                exp.append("K.own" if m == "own" else "Base.inherited")
+            elif m == "stat":
+                lines.append("  print(fresh.stat());")
+                exp.append("K.stat")
+            elif m == "derives":
+                lines.append("  print(fresh.derives(Base));")
+                exp.append("true")
+            lines.append("  o.%s = \"again\"; print(o.%s); }" % (m, m))
+            exp.append("again")
+    return ("fields-first-whatever-value-the-field-holds", "\n".join(lines) + "\n", exp)
+
+
 def hier_requests(rng, n):
     """Random hierarchies for the model driver + the Yarel program that answers the same queries on the implementation."""
     out = []
@@ -193,6 +239,11 @@ def hier_requests(rng, n):
 
 
 SCENARIOS += arity_scenarios()
+SCENARIOS.append(field_value_scenario())
+# `Self` inside lambdas and functions NESTED in a static method (depth 1 and 2, called at once or later) is the class the method was invoked
+# through - the class itself, a subclass, an instance of a sub-subclass, a bound static taken from an instance - also after the class names
+# have been rebound, and for a class declared in a block
+SCENARIOS.append(("Self-in-closures-nested-in-static-methods", '#[constructor(new)]\nclass Widget {\n  #[static] fn direct() { return Self; }\n  #[static] fn via_lambda() { return (|| Self)(); }\n  #[static] fn via_lambda2() { return (|| (|| Self)())(); }\n  #[static] fn via_fn() { fn inner() { return Self; } return inner(); }\n  #[static] fn later() { return || Self; }\n  #[static] fn make_later() { return || Self.new(); }\n  fn kind(self) { return "widget"; }\n}\n#[constructor(new), derive(Widget)]\nclass Button { fn kind(self) { return "button"; } }\n#[constructor(new), derive(Button)]\nclass Toggle { fn kind(self) { return "toggle"; } }\nvar b = Button.new();\nvar t = Toggle.new();\nfor recv in [Widget.new(), b, t] {\n  print(recv.direct()); print(recv.via_lambda()); print(recv.via_lambda2()); print(recv.via_fn()); print(recv.later()()); print(recv.make_later()().kind());\n  var bound = recv.via_lambda; print(bound());\n  var bound2 = recv.later; print(bound2()());\n}\nprint(Widget.direct()); print(Widget.via_lambda()); print(Widget.via_fn()); print(Widget.later()());\nvar Kept = Widget;\nvar k1 = Kept.later();\nvar k2 = Kept.make_later();\nvar kb = b.make_later();\nWidget = nil;\nButton = "rebound";\nprint(k1()); print(k2().kind()); print(kb().kind()); print(Kept.via_lambda()); print(Kept.via_fn()); print(b.via_lambda2()); print(t.via_fn());\n{\n  #[constructor(new)]\n  class Local { #[static] fn me() { return || Self; } #[static] fn mk() { return (|| Self.new())(); } fn kind(self) { return "local"; } }\n  var f = Local.me();\n  var L2 = Local;\n  print(f() == L2);\n  print(Local.mk().kind());\n}\n', ['<class Widget>', '<class Widget>', '<class Widget>', '<class Widget>', '<class Widget>', 'widget', '<class Widget>', '<class Widget>', '<class Button>', '<class Button>', '<class Button>', '<class Button>', '<class Button>', 'button', '<class Button>', '<class Button>', '<class Toggle>', '<class Toggle>', '<class Toggle>', '<class Toggle>', '<class Toggle>', 'toggle', '<class Toggle>', '<class Toggle>', '<class Widget>', '<class Widget>', '<class Widget>', '<class Widget>', '<class Widget>', 'widget', 'button', '<class Widget>', '<class Widget>', '<class Button>', '<class Toggle>', 'true', 'local']))
 # the member calls the interpreter makes on its own (the `iter()` and `next()` of a for loop) are member accesses like any other: own fields
 # first (a bound method of ANOTHER object, a closure), then the nearest method; a class without the method but an instance with the field
 SCENARIOS.append(("implicit-protocol-calls-see-fields-first", '#[constructor(new)]\nclass Seq { fn iter(self) { return self; } fn next(self) { return StopIter.new(); } }\nvar src = [10, 20, 30].iter();\nvar a = Seq.new();\na.next = src.next;\nfor v in a { print(v); }\nvar b = Seq.new();\nvar n = 0;\nb.next = || { n = n + 1; if n > 2 { return StopIter.new(); } return n; };\nfor v in b { print(v); }\nprint(type(b.next()) == StopIter);\nvar c = Seq.new();\nc.iter = || [7, 8].iter();\nfor v in c { print(v); }\nfor v in Seq.new() { print("never"); }\n#[constructor(new)]\nclass Bare {}\nvar d = Bare.new();\nvar k = 0;\nd.iter = || d;\nd.next = || { k = k + 1; if k > 2 { return StopIter.new(); } return k * 100; };\nfor v in d { print(v); }\n#[constructor(new), derive(Seq)]\nclass Sub { fn next(self) { self.count = self.count + 1; if self.count > 1 { return StopIter.new(); } return "sub"; } }\nvar e = Sub.new();\ne.count = 0;\nfor v in e { print(v); }\nvar f = Sub.new();\nf.count = 0;\nf.next = a.next;\nfor v in f { print("f " + String.from(v)); }\nprint(f.count);\n',
